@@ -145,6 +145,39 @@ func main() {
 		os.Exit(cmdRun(os.Args[2:]))
 	case "check":
 		os.Exit(cmdCheck(os.Args[2:]))
+	case "list":
+		// gosym list <tier>: one line per harness run: property, harness, params, solver, whether it is in the quick tier
+		tier := "thorough"
+		if len(os.Args) > 2 {
+			tier = os.Args[2]
+		}
+		var ids []string
+		for id := range checks {
+			ids = append(ids, id)
+		}
+		sort.Strings(ids)
+		for _, id := range ids {
+			pc := checks[id]
+			inQuick := map[string]bool{}
+			for _, r := range pc.Quick {
+				inQuick[r.Harness+fmtParams(r.Params)+r.Solver] = true
+			}
+			runs := pc.Quick
+			if tier == "thorough" {
+				runs = pc.Thorough
+			}
+			for _, r := range runs {
+				solver := r.Solver
+				if solver == "" {
+					solver = "z3"
+				}
+				ps := strings.TrimSuffix(fmtParams(r.Params), ",")
+				if ps == "" {
+					ps = "-"
+				}
+				fmt.Printf("%s %s %s %s quick=%v\n", id, r.Harness, solver, ps, inQuick[r.Harness+fmtParams(r.Params)+r.Solver])
+			}
+		}
 	default:
 		fmt.Fprintln(os.Stderr, "unknown command", os.Args[1])
 		os.Exit(2)
